@@ -473,6 +473,10 @@ fn check_point(cx: &mut Ctx, s: &dyn DynSampler, cached_spec: Option<f64>, ri: u
     }
     if !(lam > 0.0 && lam.is_finite()) { cx.viol("C12", format!("lambda = {} used by a sample is not finite and positive", lam), ri, x, json!({})); }
     // ------------------------------------------------------------------ C13: Box-Muller map
+    if meta.q_vectors.len() != l || meta.q_vectors.iter().any(|q| q.len() != d) {
+        cx.viol("C13", format!("{} Gaussian vectors of lengths {:?} returned for {} loops in D = {} (a surplus sine must be discarded)", meta.q_vectors.len(), meta.q_vectors.iter().map(|q| q.len()).collect::<Vec<_>>(), l, d), ri, x, json!({}));
+        return None;
+    }
     {
         let base = 2 * e - 1;
         for li in 0..l { for c in 0..d {
